@@ -267,7 +267,7 @@ PredictCore(scn) ==
 
 \* (the model's outcome does not depend on chunking at all: it has no notion of it at this grain;
 \*  the byte-grain model Framing.tla establishes that independence)
-Predict(scn) == LET p == PredictCore(scn) IN [disp |-> p.disp, ret |-> p.ret, cl |-> p.cl, ref |-> NoRef, maxget |-> 0, pool |-> <<>>]
+Predict(scn) == LET p == PredictCore(scn) IN [disp |-> p.disp, ret |-> p.ret, cl |-> p.cl, ref |-> NoRef, maxget |-> 0, pool |-> <<>>, histpanics |-> <<>>]
 
 (***************************************************************************)
 (* Conformance of a recorded observation with the model's prediction.      *)
